@@ -132,6 +132,11 @@ func (h *EntryHandler) Handle(ctx context.Context, q *dns.Msg, serverMeta server
 	if serverMeta.FromUDP {
 		udpSize := getValidUDPSize(qCtx.ClientOpt())
 		resp.Truncate(udpSize)
+	} else {
+		// Stream transports carry at most 65535 bytes. Plugins hand over
+		// unpacked (uncompressed) messages, turn on compression (and, in the
+		// worst case, truncation) if the msg is too big without it.
+		resp.Truncate(dns.MaxMsgSize)
 	}
 
 	payload, err := packMsgPayload(resp)
